@@ -480,6 +480,11 @@ func (se *SpecEnv) evalQuant(x *EQuant) Value {
 		t := se.resolveType(qv.T)
 		srt := se.e.sr.sortOf(t)
 		name := fmt.Sprintf("q!%s!%d", qv.Name, *se.qn)
+		switch t.Underlying().(type) {
+		case *types.Pointer, *types.Map:
+			// object-valued binder: instantiated at object references, not at index terms
+			name = fmt.Sprintf("q!ref.%s!%d", qv.Name, *se.qn)
+		}
 		binders = append(binders, "("+name+" "+srt+")")
 		v := Value{T: name, Sort: srt, GoT: t}
 		nv[qv.Name] = v
@@ -620,6 +625,12 @@ func (se *SpecEnv) evalCall(x *ECall) Value {
 		return boolV(errIs(se.e, a.T, b.T))
 	case "typeof":
 		sfail("typeof must be compared with a type")
+	case "strAtoi":
+		se.e.ctx.declFun("atoi", []string{"Str"}, "Int")
+		return Value{T: app("atoi", se.eval(x.Args[0]).T), Sort: "Int", GoT: types.Typ[types.Int]}
+	case "strAtoiOK":
+		se.e.ctx.declFun("atoi.ok", []string{"Str"}, "Bool")
+		return Value{T: app("atoi.ok", se.eval(x.Args[0]).T), Sort: "Bool", GoT: types.Typ[types.Bool]}
 	case "pathJoin3":
 		se.e.ctx.declFun("path.join3", []string{"Str", "Str", "Str"}, "Str")
 		return Value{T: app("path.join3", se.eval(x.Args[0]).T, se.eval(x.Args[1]).T, se.eval(x.Args[2]).T), Sort: "Str", GoT: types.Typ[types.String]}
